@@ -3,8 +3,8 @@
 ENUM / explicit-state: a state is (project, configuration, file discovery order).  Projects come from
 vf/batchgen.py (every call DAG on <= 3 (quick) / 4 (thorough) procedures x a menu of 16 file/module layouts
 x import styles {only, bare, renamed} x <= 1 feature out of {type-bound call, generic interface, module
-variable import, self recursion, 2-cycle, `USE ::` spellings, intrinsic module, undefined callee, one-line
-IF call}); configurations are all departures of weight <= 2 from {seed = root, expand, strict, no full
+variable import, self recursion, 2-cycle, two cycles through one RECURSIVE routine, `USE ::` spellings, intrinsic
+module, undefined callee, module outside the search path, host-vs-inner import of one name, one-line IF call}); configurations are all departures of weight <= 2 from {seed = root, expand, strict, no full
 parse} (extra / alternative seeds, disable / block / ignore entries at default and routine level in plain,
 scoped, module, pattern and upper-case form, expand=False, enable_imports, strict, full parse);
 the discovery order (`Scheduler._discover` iterates a `set` of paths) is an explicit, enumerated choice.
@@ -171,14 +171,15 @@ def run(ctx):
     names = ctx.seed % len(bg.NAME_POOLS)
     f0 = list(bg.enumerate_projects(3, feature_budget=0, names=names))
     f1 = [s for s in bg.enumerate_projects(3, feature_budget=1, names=names) if s['features']]
-    f0only = [s for s in f0 if s['imp'] == 'only']
-    f0imp = [s for s in f0 if s['imp'] != 'only']
+    core = ('free', 'ownmod', 'shared', 'mixed', 'allmod', 'bundle_mixed', 'split', 'casedirs')
+    f0only = [s for s in f0 if s['imp'] == 'only' and s['layout'] in core]
+    f0imp = [s for s in f0 if not (s['imp'] == 'only' and s['layout'] in core)]
     stages = [
-        ('S1: n<=3, feature-free projects (every DAG x layout x import style); configuration deviations of weight <= 1; '
-         'every discovery order', lambda: make_units(f0, 0, 1, 'all')),
-        ('S2: n<=3, every layout x import style x exactly one feature; base configuration; every discovery order',
+        ('S1: n<=3, every layout x import style x exactly one feature; base configuration; every discovery order',
          lambda: make_units(f1, 0, 0, 'all')),
-        ('S3: n<=3, feature-free projects with ONLY-imports; configuration deviations of weight 2; sorted discovery order',
+        ('S2: n<=3, feature-free projects (every DAG x layout x import style); configuration deviations of weight <= 1; '
+         'every discovery order', lambda: make_units(f0, 0, 1, 'all')),
+        ('S3: n<=3, feature-free projects with ONLY-imports in 8 core layouts; configuration deviations of weight 2; sorted discovery order',
          lambda: make_units(f0only, 2, 2, 'id')),
     ]
     if not ctx.quick:
@@ -189,7 +190,7 @@ def run(ctx):
                 n4.extend(bg.enumerate_projects(4, nmin=4, feature_budget=0, names=names))
             return n4
         stages += [
-            ('S4: n<=3, feature-free projects with bare/renamed imports; configuration deviations of weight 2; sorted discovery order',
+            ('S4: n<=3, remaining feature-free projects (bare/renamed imports, other layouts); configuration deviations of weight 2; sorted discovery order',
              lambda: make_units(f0imp, 2, 2, 'id')),
             ('S5: n<=3, projects with one feature; configuration deviations of weight 1; every discovery order',
              lambda: make_units(f1, 1, 1, 'all')),
@@ -205,8 +206,8 @@ def run(ctx):
     full = lambda s: len(s['edges']) == s['n'] * (s['n'] - 1) // 2
     gfset = [s for s in f0 if full(s)] + [s for s in f1 if full(s) and s['imp'] == 'only']
     if ctx.quick:
-        gfset = [s for s in gfset if s['n'] == 3][::17]
-    gfres, gfdone, ngf = br.staged_run(ctx, gf_check, gfset, 0.15 * br.stage_deadline(ctx), slice_size=ctx.nproc)
+        gfset = [s for s in gfset if s['n'] == 3][::9]
+    gfres, gfdone, ngf = br.staged_run(ctx, gf_check, gfset, 0.15 * br.stage_deadline(ctx), slice_size=ctx.nproc * 2)
     bad = [(s, r) for s, r in zip(gfset, gfres) if r]
     ctx.require(not bad, f'generator emitted a project that gfortran does not confirm: {bad[:1]}')
     gfset = gfset[:ngf]
@@ -238,7 +239,7 @@ def run(ctx):
         if not completed:
             break
     ctx.require(total['states'] >= 100, 'vacuous: fewer than 100 states explored')
-    if done_stages[0]['completed']:
+    if any(d['completed'] and d['stage'].startswith('S2') for d in done_stages):
         ctx.require(total['pruning_cases'] > 100 and total['ignore_cases'] > 20 and len(shapes) > 50,
                     f'vacuous: pruning/ignore never took effect ({total["pruning_cases"]}, {total["ignore_cases"]}, {len(shapes)})')
     sigs, nb = br.bucket_and_shrink(ctx, failures, shrink_one)
